@@ -19,6 +19,50 @@ def run_mode(chk, mode, args, inp="", timeout=900, race=False):
                       no_failing_input="panic" not in o and "DATA RACE" not in o and "fatal error" not in o)
     return rows, o
 
+# ------------------------------------------------------------------------------------------ idle connections (C03, C15)
+class IdleProbe:
+    """clients on the plain and the TLS port exchange commands, stay silent for a while and go on (harness mode `idle`); started in
+    the background at the beginning of a check and joined at its end, so the pause costs no wall time beyond the check's own"""
+    def __init__(self, chk, tier):
+        import thresholds as T, threading
+        self.chk, self.times, self.rows, self.out = chk, T.idle_times(tier), [], ""
+        self.th = None
+        if self.times:
+            self.th = threading.Thread(target=self._run, daemon=True)
+            self.th.start()
+    def _run(self):
+        from concurrent.futures import ThreadPoolExecutor
+        def one(t):
+            rc, o, _ = vlib.run_harness(["idle", str(t)], "", timeout=t + 120)
+            return t, rc, o
+        with ThreadPoolExecutor(max_workers=4) as ex:
+            for t, rc, o in ex.map(one, self.times):
+                got = 0
+                for l in o.splitlines():
+                    if l.startswith("{"):
+                        try:
+                            self.rows.append(json.loads(l)); got += 1
+                        except Exception:
+                            pass
+                if got < 3:
+                    self.rows.append(dict(error="the idle run (%d s) produced %d of 3 rows (status %s): %s" % (t, got, rc, o[-400:])))
+    def join(self, pid):
+        if self.th is None:
+            return 0
+        self.th.join()
+        ok = 0
+        for r in self.rows:
+            if r.get("error"):
+                self.chk.violation("idle-run", r["error"], dict(row=r), no_failing_input=True)
+            elif not r.get("served_before"):
+                self.chk.violation("idle:" + r["conn"], "a %s connection was not served right after connecting: %s" % (r["conn"], r.get("note", "")), dict(row=r))
+            elif not r.get("served_after"):
+                self.chk.violation("idle:" + r["conn"], "a %s connection that was served, then left idle for %d s, is no longer answered although neither the client nor Stop ended it: %s" % (
+                    r["conn"], r["idle_seconds"], r.get("note", "")), dict(row=r, mode="idle", idle_seconds=r["idle_seconds"]))
+            else:
+                ok += 1
+        return ok
+
 # ------------------------------------------------------------------------------------------ C09
 CHAINS_OK = {"valid", "valid-under-neutral-intermediate", "wrongname", "intermediate-name"}     # chain to the configured CA, inside validity
 NAME_OK = {"valid", "valid-under-neutral-intermediate"}                                            # ... and the LEAF carries the rule name
@@ -26,6 +70,8 @@ NAME_OK = {"valid", "valid-under-neutral-intermediate"}                         
 def gate_expected(config, cred, fault):
     if fault != "complete":
         return False
+    if "+password-changed" in config:
+        return False                     # only clients the certificate rule turns away are tried after a password change
     if config.endswith("+rotated-ca"):
         return cred == "new-ca"          # after the client CA was replaced and the server restarted
     return cred in (CHAINS_OK if config == "norule" else NAME_OK)
@@ -115,6 +161,7 @@ def life_sequences(rng, tier):
 def run_c15(tier, seed):
     chk = Check("C15", tier, seed)
     broken = prep(chk, "C15")
+    idle = IdleProbe(chk, tier)      # clients that idle between lifecycle calls are served until Stop (background; joined below)
     rng = random.Random(seed)
     seqs = life_sequences(rng, tier)
     lines = ["%s %s" % (cfg, s) for cfg in ("plain", "tls", "both") for s in seqs]
@@ -182,6 +229,8 @@ def run_c15(tier, seed):
     chk.coverage["concurrent_client_rounds"] = dict(rounds=len(brows), clients_per_round=2 * crowd)
     if len(rows) != len(lines) and not chk.violations:
         chk.violation("incomplete", "%d of %d sequences produced a result" % (len(rows), len(lines)), dict(), True)
+    idle_ok = idle.join("C15")
+    chk.notes.append("idle connections: pauses of %s s on plain / TLS 1.2 / TLS 1.3 connections, %d served afterwards" % (idle.times, idle_ok))
     if broken and not chk.violations:
         chk.violation("proof-broken", broken, dict(broken=broken, theorem="GRP.C15"), True)
     chk.coverage.update(
@@ -217,7 +266,7 @@ def run_c19(tier, seed):
         if r.get("registry_after", 0) != 0:
             probs.append("%d connections remain in the registry" % r["registry_after"])
         if r.get("not_closed_by_server", 0) != 0:
-            probs.append("%d connections were not closed and released by the server within 3 s after QUIT / a protocol error (the client kept its end open and waited)" % r["not_closed_by_server"])
+            probs.append("%d connections were not closed and released by the server within 3 s after QUIT / a protocol error / a rejected certificate (the client kept its end open and waited)" % r["not_closed_by_server"])
         if r.get("goroutine_delta", 0) > 0:
             probs.append("%d server goroutines remain" % r["goroutine_delta"])
         if r.get("fd_delta", 0) > 0:
@@ -226,8 +275,8 @@ def run_c19(tier, seed):
             probs.append("Stop returned: " + r["stop_err"])
         if probs:
             chk.violation("leak:" + r["mode"], "after %d connect/disconnect cycles ending by %s (%d in flight): %s" % (r.get("cycles", 0), r["mode"], r.get("in_flight", 0), " ; ".join(probs)), dict(row=r))
-    if batches < 15 and not chk.violations:
-        chk.violation("incomplete", "the churn run produced %d of 15 batches: %s" % (batches, o[-500:]), dict(output=o[-3000:]), True)
+    if batches < 16 and not chk.violations:
+        chk.violation("incomplete", "the churn run produced %d of 16 batches: %s" % (batches, o[-500:]), dict(output=o[-3000:]), True)
     if broken and not chk.violations:
         chk.violation("proof-broken", broken, dict(broken=broken, theorem="GRP.C19"), True)
     chk.coverage.update(
